@@ -679,6 +679,51 @@ func (en *Engine) GoexitShutdown(n, q, k, lane int) {
 	en.Shutdown(r, true)
 }
 
+// ---------------------------------------------------------------- C07: the empty lane
+
+// EmptyLane: "for all configurations" includes laneSize 0 - a lane without goroutines, onto which nothing can be
+// pushed. Once its context has ended (variant 0: cancel, 1: cancelled before New, 2: Wait begun before the cancel)
+// Wait() must return: no task was ever started. Status() must answer 0 pending.
+func (en *Engine) EmptyLane(q, variant int) {
+	const fam = "emptylane"
+	name := sname(fam, 0, q, variant)
+	if en.Skip(fam, name) {
+		return
+	}
+	r := en.New(fam, name, 0, q)
+	defer en.Finish(fam, r)
+	r.ForceM = true
+	if variant == 1 {
+		r.Cancel(en.ctxErr())
+	}
+	r.Start(en.longTO())
+	done := make(chan struct{})
+	if variant == 2 {
+		go func() { r.L.Wait(); close(done) }()
+		time.Sleep(time.Millisecond)
+	}
+	if variant != 1 {
+		r.Cancel(en.ctxErr())
+	}
+	if variant == 2 {
+		select {
+		case <-done:
+		case <-time.After(LiveBound):
+			r.stuck.Store(true)
+			r.Violation("wait-did-not-return within %v on a lane with laneSize 0 whose context has ended (Wait begun before the cancel)", LiveBound)
+			return
+		}
+	}
+	if !r.WaitMany(1, LiveBound) {
+		r.Violation("wait-did-not-return within %v on a lane with laneSize 0 whose context has ended", LiveBound)
+		return
+	}
+	r.Leaks()
+	if p, _ := r.Status(); p != 0 && p != -3 {
+		r.Violation("pending: empty lane reports PendingTask=%d", p)
+	}
+}
+
 // ---------------------------------------------------------------- C07: back-to-back New -> push -> cancel -> Wait on one P
 
 // BackToBack: with GOMAXPROCS(1) and nothing blocking in between: New, k pushes that fit the buffers,
